@@ -160,9 +160,13 @@ func (x *Exec) applySpec(st *State, fs *FuncSpec, names []string, args []Val, si
 	}
 	pre := st.snap()
 	env := &Env{x: x, st: st, old: pre, vars: vars}
+	if len(fs.Req) > 0 && !strings.HasPrefix(cc.label, "role:") {
+		// reachability of the call site (vacuity information)
+		x.covers = append(x.covers, &Obligation{Name: fmt.Sprintf("%s#cover[call:%s]#%d", x.fname, cc.label, len(x.covers)), Func: x.fname, Kind: "cover", Props: x.spec.Props,
+			Asms: append([]Term(nil), st.asms...), Goal: "false", decls: x.d, Desc: "call site reachable"})
+	}
 	for k, c := range fs.Req {
 		env.what = fmt.Sprintf("%s requires (%s:%d)", fs.Name, shortFile(c.File), c.Line)
-		g := env.evalBool(c.Expr)
 		d := cc.label + ":" + fmt.Sprint(k)
 		if c.Label != "" {
 			d = cc.label + ":" + c.Label
@@ -171,9 +175,51 @@ func (x *Exec) applySpec(st *State, fs *FuncSpec, names []string, args []Val, si
 		if len(c.Props) > 0 {
 			props = c.Props
 		}
-		x.oblige(st, "callpre", d, g, props, "precondition of "+cc.label+": "+c.Text, cc.pos)
-		st.assume(g)
+		parts := x.splitConj(c.Expr, 0)
+		for j, pe := range parts {
+			g := env.evalBool(pe)
+			dd, desc := d, "precondition of "+cc.label+": "+c.Text
+			if len(parts) > 1 {
+				dd = fmt.Sprintf("%s.%d", d, j)
+				desc += "  [conjunct: " + exprString(pe) + "]"
+			}
+			x.oblige(st, "callpre", dd, g, props, desc, cc.pos)
+			st.assume(g)
+		}
 	}
+	// caller-side obligations attached to this call label
+	if ocs := x.spec.OnCall[cc.label]; len(ocs) > 0 {
+		cvars := x.scopeVars(st, st.frames[0])
+		for n, v := range vars {
+			cvars["a_"+n] = v // the call's arguments, by the callee's parameter names
+		}
+		cenv := &Env{x: x, st: st, old: x.entry, vars: cvars}
+		for k, c := range ocs {
+			cenv.what = fmt.Sprintf("%s oncall %s (%s:%d)", x.fname, cc.label, shortFile(c.File), c.Line)
+			props := x.spec.Props
+			if len(c.Props) > 0 {
+				props = c.Props
+			}
+			d := cc.label + ":" + fmt.Sprint(k)
+			if c.Label != "" {
+				d = cc.label + ":" + c.Label
+			}
+			x.oblige(st, "oncall", d, cenv.evalBool(c.Expr), props, "before "+cc.label+": "+c.Text, cc.pos)
+		}
+	}
+	// ghost bindings the callee establishes at its entry
+	for _, eg := range fs.EntryGhost {
+		env.what = fs.Name + " entry-ghost"
+		p := env.evalPlace(eg[0].Expr)
+		v := env.coerce(env.eval(eg[1].Expr), p.T)
+		for i, l := range leavesOf(p.T) {
+			a := extend(p.addr, l.Path)
+			x.oblige(st, "frame", cc.label+":entry-ghost", x.writable(a, l.Sort), x.spec.Props, "ghost binding of "+cc.label+" is allowed by the modifies clause", cc.pos)
+			st.storeLeaf(l.Sort, a, v.L[i])
+		}
+	}
+	pre = st.snap()
+	env.old = pre
 	if len(fs.PanicIf) > 0 {
 		var alts []Term
 		for _, c := range fs.PanicIf {
@@ -451,6 +497,11 @@ func (x *Exec) builtin(st *State, f *ssa.Builtin, c *ssa.CallCommon, args []Val,
 		// (j < len1) or element j-len1 of the appended one; instantiated lazily
 		// at every later read of an element of the result (state.go, copyAxiom)
 		x.appendInfo[obj] = &appendRec{s1: [3]Term{s1.L[0], s1.L[1], s1.L[2]}, s2: [3]Term{s2.L[0], s2.L[1], s2.L[2]}, snap: st.snap(), elem: st1.Elem()}
+		if el := leavesOf(st1.Elem()); len(el) == 1 && el[0].Sort == "String" && (s2.L[2] == "1" || s2.L[2] == "(- 1 0)") {
+			// element-set view: elems(append(s, x)) == elems(s) ∪ {x}
+			xv := st.loadVal(extendIdx(s2.L[0], s2.L[1]), st1.Elem())
+			st.assume(tEq(st.elemsOf([3]Term{obj, "0", nl}), tStore(st.elemsOf([3]Term{s1.L[0], s1.L[1], s1.L[2]}), xv.L[0], "true")))
+		}
 		x.notes = append(x.notes, "append allocates a fresh backing array (aliasing through spare capacity is not modelled)")
 		return Val{T: rt, L: []Term{obj, "0", nl}}
 	case "delete":
@@ -474,7 +525,7 @@ func (x *Exec) builtin(st *State, f *ssa.Builtin, c *ssa.CallCommon, args []Val,
 		st.assume(tAnd("(>= "+n+" 0)", "(<= "+n+" "+args[0].L[2]+")", "(<= "+n+" "+args[1].L[2]+")"))
 		x.notes = append(x.notes, "copy: destination contents not tracked")
 		st.pendingAlloc = st.alloc
-		st.havocAll(func(a Term) Term { return tNot(tEq(tRid(a), tRid(args[0].L[0]))) })
+		st.havocAll(func(a Term) Term { return tNot(tEq(tOrid(a), tRid(args[0].L[0]))) })
 		st.pendingAlloc = ""
 		return one(n)
 	}
